@@ -337,8 +337,8 @@ impl RecordDataType {
 //@item src/bs_read.rs struct ByteStreamReadBuffer
 //@enditem
 
-/// no single stream buffer grows beyond this (a data packet is at most 64 KiB): keeps usize arithmetic in range
-pub spec const MAX_RB: int = 0x1000_0000;
+/// no stream buffer reaches 2^60 bytes (physical memory): keeps usize arithmetic (len * 8) in range
+pub spec const MAX_RB: int = 0x1000_0000_0000_0000;
 
 impl ByteStreamReadBuffer {
     pub open spec fn wf(&self) -> bool { self.offset <= 8 * self.buffer@.len() && self.buffer@.len() <= MAX_RB && self.tmp@.len() == 0 }
